@@ -27,8 +27,8 @@ META = {
     "id": "C19",
     "level": "proof",
     "technique": "Coq theorems (unbounded, closed) about an executable model of the fixed-point field codec, the g96 / extended-xyz / lammpstrj line formats, velocity reversal, frame extraction (single files and histories of extractions into one directory: overwrite semantics), swap_integer, the TRR header/data decoder, and the mdp / CP2K / LAMMPS template editors + lock-step of the extracted model against the real functions on generated files + the property's statement evaluated on the implementation",
-    "text": "Unbounded theorems: float('{:w.df}'.format(x)) is x rounded half-even to d decimals (error <= half a unit of the last decimal) for every width; the field has the format width iff width_guard, which is a bound on the magnitude (g96: -1e4 < x < 1e5); g96 atom lines (24-character label + 3 fields, read by slicing) and box lines, xyz atom lines and Box: headers round-trip; the guard is necessary for g96 (witness) and unnecessary for xyz; the lammpstrj reader returns the rows of frame k sorted by id whatever order they were written in; reversing velocities changes the velocity signs only and printing -x parses to -round(x); frame k of a multi-frame xyz / lammpstrj / TRR file is frame k; frame extraction is history-independent: dump_config / _extract_frame is the directory operation files[out := [frame k of src]] (the output is opened for writing), so after ANY sequence of extractions - any sources (earlier outputs included, src = out included), any output names, any initial directory: output absent, holding a stale frame, a whole stale trajectory, an unrelated system, junk or nothing - the output of an extraction that no later one overwrote holds exactly one snapshot, the frame that extraction took from its source as it was then, the reader (first snapshot) returns it, the old content of the output has no influence on any file, files nobody writes to are unchanged; opening the output for appending is refuted (two extractions into one name: the reader returns the first), also on the extended-xyz text (stale block in front => the stale snapshot is read). Checked on the implementation for EVERY engine with an _extract_frame that can run here (CP2KEngine, TurtleMDEngine, LAMMPSEngine, GromacsEngine .trr -> .g96 and .g96 -> .g96, ASEEngine): generated histories through the real dump_config, after every operation the output is read back with the engine's own _read_configuration and _reverse_velocities + _read_configuration and must be frame k of the source as read before the operation (resp. (x, -v) of it), the file must hold exactly one snapshot, and every file of the directory, identified frame by frame with the package's readers, must be what the model's fx_run / fx_trace says; swap_integer is byte reversal of the low 32 bits and an involution on them; TRR header and frame decode(encode) = id for both byte orders and both precisions, precision detection; mdp editing replaces exactly the requested keys, appends the missing ones once, keeps every other line byte-identical, reads back the requested values and is idempotent on the whole text - for every requested value, the ones that are falsy in Python included (the model is over strings: the requested text is str(value), so 0, 0.0, '', None, False and the strings '0', '0.0', ' ' are values like any other; generated for keys present in and absent from the template, alone and mixed with non-zero values, and as the engine's own requests nstvout = 0, nstfout = 0, nsteps = 0, define = ''); CP2K data-line update exact + idempotent, a section created from a dict is a fixed point, tree update touches only the target node (same-named siblings untouched, path dictionary unchanged) and is idempotent, and the printed text reads back as the same forest (so comparing trees is comparing files); LAMMPS variable substitution exact, output free of requested variables, second application unchanged with all variables reported missing. Format constants (widths, precisions, slice positions, TRR magic/version/header layout, swap masks) are regenerated from /repo's source on every run and pinned by C19_format_contract.",
-    "note": "Trusted: Coq kernel (all theorems closed under the global context); extraction (ExtrOcamlBasic) + ocaml/c19_driver.ml; this harness (generators, file skeletons, hex encoding, struct packing of TRR test files, IEEE decoding of the model's byte groups, an independent CP2K tree parser used to compare outputs modulo sibling order). Not proved but checked on every generated value: Python's format()/float() correct rounding (model works on the exact rational of the float; float(s) must equal the double nearest to the model's decimal). numpy astype(str)/genfromtxt tokens are opaque shortest round-trip decimals (lammpstrj theorem is therefore `_partial`: row selection + canonical id sort only). LAMMPS str.replace is modelled on tokens (generated variables are never substrings of other tokens or values). LAMMPS reader needs >= 2 atoms (genfromtxt returns a 1-D array for one row): outside the claim, as in DESIGN. Requested values of the template editors are passed to the model as str(value) (what the editors write); for CP2K only None means 'keyword alone', 0 / 0.0 / '' / False are values, and CP2K data lines are compared stripped in the tree comparison ('KEY ' is what an empty value prints). CP2K: at most two sections may share a title path (Python's set order decides which of three keeps the plain key); targets are upper case. Extraction histories: engine objects are created with object.__new__ (no __init__: no input files / executables) and given exe_dir, ext and what the methods use (LAMMPS n_atoms, GROMACS top); frames are told apart by value (every generated frame carries its number in its first coordinate; extended xyz / lammpstrj exact, g96 to 9 decimals, ASE to 1e-12 since velocities are stored as momenta); a file without a complete frame (junk, empty) is modelled as holding no frame; GROMACS .g96 -> .g96 onto itself is shutil.copyfile and raises SameFileError (file untouched): src = out is not generated for GROMACS; extraction of a frame that does not exist (the engines log or raise) is outside the claim; AMSEngine._extract_frame works on in-memory states of an AMS worker (scm.plams, not installed): not exercised. The model is that of the code repaired by proposed_fixes/C19_modify_input_newline.diff, C19_cp2k_dict_data.diff and C19_lammps_repeated_variable.diff; on a tree without these repairs the oracle reports the concrete failing inputs.",
+    "text": "Unbounded theorems: float('{:w.df}'.format(x)) is x rounded half-even to d decimals (error <= half a unit of the last decimal) for every width; the field has the format width iff width_guard, which is a bound on the magnitude (g96: -1e4 < x < 1e5); g96 atom lines (24-character label + 3 fields, read by slicing) and box lines, xyz atom lines and Box: headers round-trip; the guard is necessary for g96 (witness) and unnecessary for xyz; the lammpstrj reader returns the rows of frame k sorted by id whatever order they were written in; reversing velocities changes the velocity signs only and printing -x parses to -round(x); frame k of a multi-frame xyz / lammpstrj / TRR file is frame k; frame extraction is history-independent: dump_config / _extract_frame is the directory operation files[out := [frame k of src]] (the output is opened for writing), so after ANY sequence of extractions - any sources (earlier outputs included, src = out included), any output names, any initial directory: output absent, holding a stale frame, a whole stale trajectory, an unrelated system, junk or nothing - the output of an extraction that no later one overwrote holds exactly one snapshot, the frame that extraction took from its source as it was then, the reader (first snapshot) returns it, the old content of the output has no influence on any file, files nobody writes to are unchanged; opening the output for appending is refuted (two extractions into one name: the reader returns the first), also on the extended-xyz text (stale block in front => the stale snapshot is read). Checked on the implementation for EVERY engine with an _extract_frame that can run here (CP2KEngine, TurtleMDEngine, LAMMPSEngine, GromacsEngine .trr -> .g96 and .g96 -> .g96, ASEEngine): generated histories through the real dump_config, after every operation the output is read back with the engine's own _read_configuration and _reverse_velocities + _read_configuration and must be frame k of the source as read before the operation (resp. (x, -v) of it), the file must hold exactly one snapshot, and every file of the directory, identified frame by frame with the package's readers, must be what the model's fx_run / fx_trace says; swap_integer is byte reversal of the low 32 bits and an involution on them; TRR header and frame decode(encode) = id for both byte orders and both precisions, precision detection; mdp editing replaces exactly the requested keys, appends the missing ones once, keeps every other line byte-identical, reads back the requested values and is idempotent on the whole text - for every requested value, the ones that are falsy in Python included (the model is over strings: the requested text is str(value), so 0, 0.0, '', None, False and the strings '0', '0.0', ' ' are values like any other; generated for keys present in and absent from the template, alone and mixed with non-zero values, and as the engine's own requests nstvout = 0, nstfout = 0, nsteps = 0, define = ''); CP2K data-line update exact + idempotent, a section created from a dict is a fixed point, tree update touches only the target node (same-named siblings untouched, path dictionary unchanged) and is idempotent, and the printed text reads back as the same forest (so comparing trees is comparing files); LAMMPS variables: the requested edit is the whole-word substitution on the token list of each line (C19_lammps_subst_exact: exactly the pieces that ARE a requested variable change, white space and every other word stay; C19_lammps_output_free; C19_lammps_missing; C19_lammps_second_application: idempotent, every variable then reported missing); the code as written (`if var in line.split(): line = line.replace(var, value)`, modelled as str.replace inside every word of a line one of whose words is the variable, in dictionary order: lmp_impl_write_for_run) leaves a line none of whose WORDS is a requested variable unchanged whatever its words, comments and file names contain as substrings (C19_lammps_impl_no_word_untouched), IS the whole-word substitution on every lmp_line_clean line (C19_lammps_impl_whole_word / _write_whole_word: prefix / suffix / substring related keys, words containing variable names, values containing variable names, repeated variables, variables on several lines) and is idempotent there (C19_lammps_impl_second_application); the guard is needed (C19_lammps_same_line_refuted: {n: 3, ns: 5} on 'n ns' gives '3 3s' -- recorded finding, reported as KNOWN-FINDING for exactly the not-clean lines) and matching variables as substrings of the line is refuted on a clean line (C19_lammps_substring_match_refuted). Checked on the real write_for_run: key sets over {v, vn, xv} in every dictionary order x plain values / values containing variable names x every line of <= 2 words over {v, vn, xv, vnx, #v, w} and pairs of such lines; the standard infretis template with user lines (infretis_name_restart.bin, log.infretis_seed_check, comments), prefix keys var_n / var_nsteps / var_nsteps_out in all six orders, values that are paths containing variable names; seeded random templates over 15 related keys; the written file must equal the whole-word edit on every clean template, the model of the code as written on every template (clean or not), the reported missing variables must be those that are no word of the template, and a second application must change nothing. Format constants (widths, precisions, slice positions, TRR magic/version/header layout, swap masks) are regenerated from /repo's source on every run and pinned by C19_format_contract.",
+    "note": "Trusted: Coq kernel (all theorems closed under the global context); extraction (ExtrOcamlBasic) + ocaml/c19_driver.ml; this harness (generators, file skeletons, hex encoding, struct packing of TRR test files, IEEE decoding of the model's byte groups, an independent CP2K tree parser used to compare outputs modulo sibling order). Not proved but checked on every generated value: Python's format()/float() correct rounding (model works on the exact rational of the float; float(s) must equal the double nearest to the model's decimal). numpy astype(str)/genfromtxt tokens are opaque shortest round-trip decimals (lammpstrj theorem is therefore `_partial`: row selection + canonical id sort only). LAMMPS: a line is a list of white-space / word pieces (the harness tokenises with \\S+|\\s+, values are free of white space); a word of a line is non-empty and free of white space, so str.replace on the line is str.replace inside each word piece -- this is how the model of the code as written is stated and it is compared with the real output on every generated template. Genuine deviation of /repo from the whole-word statement, recorded not repaired: a variable that is a word of a line is also replaced inside other words of that line and inside values written earlier on that line (witness {var_n: 3, var_nsteps: 500}, line 'run var_n var_nsteps' -> 'run 3 3steps'); the check prints KNOWN-FINDING for exactly these (not lmp_line_clean) inputs and, on them, accepts either the model of the code as written or the whole-word result (proposed_fixes/C19_lammps_whole_word.diff makes the code whole-word; with it no KNOWN-FINDING is printed). A value that is itself a requested variable is generated only rarely and then excluded from the idempotence oracle (the theorem's lmp_settings_ok). An exception of a real reader / writer / editor on a generated input is reported as a violation with that input. LAMMPS reader needs >= 2 atoms (genfromtxt returns a 1-D array for one row): outside the claim, as in DESIGN. Requested values of the template editors are passed to the model as str(value) (what the editors write); for CP2K only None means 'keyword alone', 0 / 0.0 / '' / False are values, and CP2K data lines are compared stripped in the tree comparison ('KEY ' is what an empty value prints). CP2K: at most two sections may share a title path (Python's set order decides which of three keeps the plain key); targets are upper case. Extraction histories: engine objects are created with object.__new__ (no __init__: no input files / executables) and given exe_dir, ext and what the methods use (LAMMPS n_atoms, GROMACS top); frames are told apart by value (every generated frame carries its number in its first coordinate; extended xyz / lammpstrj exact, g96 to 9 decimals, ASE to 1e-12 since velocities are stored as momenta); a file without a complete frame (junk, empty) is modelled as holding no frame; GROMACS .g96 -> .g96 onto itself is shutil.copyfile and raises SameFileError (file untouched): src = out is not generated for GROMACS; extraction of a frame that does not exist (the engines log or raise) is outside the claim; AMSEngine._extract_frame works on in-memory states of an AMS worker (scm.plams, not installed): not exercised. The model is that of the code repaired by proposed_fixes/C19_modify_input_newline.diff, C19_cp2k_dict_data.diff and C19_lammps_repeated_variable.diff; on a tree without these repairs the oracle reports the concrete failing inputs.",
     "design_ref": "4/C19",
 }
 LEVEL = "proof"
@@ -1243,54 +1243,124 @@ def dec_lmp_lines(s):
     return [] if s == "-" else ["".join(unhx(p[1:]) for p in ln.split(",")) if ln != "-" else "" for ln in s.split(";")]
 
 
+KNOWN_LMP = ("LAMMPS write_for_run edits text that was not requested on a line where a requested variable is a word AND occurs inside another word of that line "
+             "(or inside a value written earlier on that line): `if var in line.split(): line = line.replace(var, value)` replaces every occurrence in the line. "
+             "Witness: settings {var_n: 3, var_nsteps: 500} (this order), line 'run var_n var_nsteps' -> 'run 3 3steps' instead of 'run 3 500' "
+             "(theorem C19_lammps_same_line_refuted; C19_lammps_impl_whole_word holds exactly on the lmp_line_clean lines; lines none of whose words is a variable are never touched: "
+             "C19_lammps_impl_no_word_untouched; small repair: proposed_fixes/C19_lammps_whole_word.diff)")
+
+
 def run_write_for_run(src, out, settings):
+    """-> (text written, variables reported missing) ; (None, description) when the real function raised anything
+    but its own 'Did not find the following keys' ValueError"""
     from infretis.classes.engines.lammps import write_for_run
     try:
         write_for_run(src, out, dict(settings))
         return rfile(out), []
     except ValueError as e:
-        m = re.search(r"dict_keys\((\[.*?\])\)", str(e))
-        return rfile(out), (list(__import__("ast").literal_eval(m.group(1))) if m else ["?"])
-    except KeyError as e:
-        return None, f"KeyError({e})"
+        m = re.search(r"Did not find the following keys\s*dict_keys\((\[.*?\])\)", str(e), re.S)
+        if not m or not os.path.exists(out):
+            return None, f"ValueError({e})"
+        return rfile(out), list(__import__("ast").literal_eval(m.group(1)))
+    except Exception as e:  # noqa: BLE001  any exception on a legal template is a finding
+        return None, f"{type(e).__name__}({e})"
+
+
+def lmp_line_clean(line, spairs):
+    """The guard of C19_lammps_impl_whole_word stated on Python strings (independent of the model's
+    lmp_line_clean, the two are compared): when a variable that is a word of the line is applied (dictionary
+    order), it occurs in no other word still standing and in no value already written on this line."""
+    words = line.split()
+    done = []
+    for k, v in spairs:
+        if k in words:
+            written = dict(done)
+            for t in words:
+                if t != k and t not in written and k in t:
+                    return False
+            for k2, v2 in done:
+                if k2 in words and k in v2:
+                    return False
+        done.append((k, v))
+    return True
 
 
 def case_lammps_in(spec, tmp):
     c = Case("lammps_in", spec)
+    c.known = None
     text, pairs = spec["text"], [tuple(p) for p in spec["settings"]]
     src, out, out2 = (os.path.join(tmp, n) for n in ("in.lmp", "out.lmp", "out2.lmp"))
+    for f in (out, out2):
+        if os.path.exists(f):
+            os.remove(f)
     wfile(src, text)
     res, miss = run_write_for_run(src, out, pairs)
     lines = text.splitlines(keepends=True)
-    req = f"lmp {enc_pairs(pairs)} {enc_lmp_lines(lines)}"
+    spairs = [(k, str(v)) for k, v in pairs]
+    s = dict(spairs)
+    # the statement: every word that IS a requested variable is replaced by its value, every other character stays
+    exp = "".join("".join(s.get(p, p) for p in pieces(ln)) for ln in lines)
+    toks = {t for ln in lines for t in ln.split()}
+    exp_miss = sorted(k for k in s if k not in toks)
+    clean = [lmp_line_clean(ln, spairs) for ln in lines]
+    allclean = all(clean)
+    settings_ok = not any(v in s for v in s.values())       # no value is itself a requested variable
+    rel_keys = any(a != b and a in b for a in s for b in s)
+    word_has_var = any(k in t and t != k for k in s for t in toks if t not in s)
+    val_has_var = any(k in v for k in s for v in s.values())
+    for tag, on in (("lammps_clean_lines_only", allclean), ("lammps_same_line_overlap", not allclean), ("lammps_prefix_or_substring_related_keys", rel_keys),
+                    ("lammps_word_contains_variable_name", word_has_var), ("lammps_value_contains_variable_name", val_has_var),
+                    ("lammps_var_on_two_lines", any(sum(k in ln.split() for ln in lines) > 1 for k in s)),
+                    ("lammps_var_repeated_on_line", any(ln.split().count(k) > 1 for ln in lines for k in s))):
+        if on:
+            c.tags.append(tag)
+    c.sample = {"lammps_in": text[:200], "settings": pairs}
+    enc = f"{enc_pairs_str(pairs)} {enc_lmp_lines(lines)}"
     if res is None:
-        c.fail(f"write_for_run raised {miss} on a template using a variable on two lines")
-        c.ask([req], lambda a: f"write_for_run raised {miss}, the model substitutes")
+        c.fail(f"write_for_run raised {miss} on a legal template (settings {pairs}, text {text[:300]!r})")
         return c
 
     def chk(ans):
+        ol, om, oc = ans[0].split("|")
+        mt, mm = "".join(dec_lmp_lines(ol)), unhxl(om)
+        mclean = [] if oc in ("-", "") else [x == "1" for x in oc.split(",")]
+        if mclean != clean:
+            return f"clean-line guard: model {mclean} != harness {clean}"
+        if sorted(mm) != sorted(exp_miss):
+            return f"variables never found: model {mm} != harness {exp_miss}"
+        if mt != res:
+            if not allclean and res == exp:
+                return None         # whole-word substitution on an overlapping line: the repaired behaviour, accepted
+            if res != exp:
+                c.fail(f"write_for_run changed text that was not requested or missed a requested word (and differs from the model of the code as written): got {res!r}, expected {exp!r}")
+            return f"write_for_run output: model of the code as written {mt!r} != implementation {res!r}"
+        if res != exp:              # only possible off the clean lines (C19_lammps_impl_whole_word): the recorded same-line finding
+            c.known = KNOWN_LMP
+        return None
+    c.ask([f"lmpi {enc}"], chk)
+
+    def chk_spec(ans):
         ol, om = ans[0].split("|")
         mt, mm = "".join(dec_lmp_lines(ol)), unhxl(om)
-        if mt != res:
-            return f"write_for_run output: model {mt!r} != implementation {res!r}"
-        return None if sorted(mm) == sorted(miss) else f"variables reported missing: model {mm} != implementation {miss}"
-    c.ask([req], chk)
-    s = {k: str(v) for k, v in pairs}
-    exp = "".join("".join(s.get(p, p) for p in pieces(ln)) for ln in lines)
-    toks = {t for ln in lines for t in ln.split()}
-    if res != exp:
-        c.fail(f"substitution is not exactly token-wise: got {res!r}, expected {exp!r}")
-    elif sorted(miss) != sorted(k for k in s if k not in toks):
-        c.fail(f"variables reported missing {miss}, absent from the template {sorted(k for k in s if k not in toks)}")
-    elif any(t in s for ln in res.splitlines() for t in ln.split()):
-        c.fail("a requested variable survives in the output")
-    else:
-        wfile(os.path.join(tmp, "again.lmp"), res)
-        res2, miss2 = run_write_for_run(os.path.join(tmp, "again.lmp"), out2, pairs)
-        if res2 != res or (res2 is not None and sorted(miss2) != sorted(s)):
-            c.fail(f"second application: text changed or not every variable reported missing ({miss2})")
-    c.tags.append("lammps_var_on_two_lines" if any(sum(k in ln.split() for ln in lines) > 1 for k in s) else "lammps_other")
-    c.sample = {"lammps_in": text[:200], "settings": pairs}
+        if mt != exp:
+            return f"whole-word model {mt!r} != the harness' statement of the requested edit {exp!r}"
+        return None if sorted(mm) == exp_miss else f"whole-word model reports {mm} missing, harness {exp_miss}"
+    c.ask([f"lmp {enc}"], chk_spec)
+    if sorted(miss) != exp_miss:
+        c.fail(f"variables reported missing {sorted(miss)}, but the requested variables that are no word of the template are {exp_miss}")
+    elif allclean and res != exp:
+        bad = [(a, b) for a, b in zip(res.splitlines(), exp.splitlines()) if a != b][:2]
+        c.fail(f"editing the template did not change exactly the requested words: written/expected lines {bad}; got {res!r}, expected {exp!r}")
+    elif allclean and settings_ok:
+        if any(t in s for ln in res.splitlines() for t in ln.split()):
+            c.fail("a requested variable survives as a word of the output")
+        else:
+            wfile(os.path.join(tmp, "again.lmp"), res)
+            res2, miss2 = run_write_for_run(os.path.join(tmp, "again.lmp"), out2, pairs)
+            if res2 is None:
+                c.fail(f"second application raised {miss2}")
+            elif res2 != res or sorted(miss2) != sorted(s):
+                c.fail(f"second application: text changed ({res2 != res}) or not every variable reported missing ({miss2})")
     return c
 
 
@@ -1309,6 +1379,101 @@ def gen_lammps_in(rng, small=None):
         text = text[:-1]
     ks = rng.sample(LMP_VARS, rng.randrange(0, 4))
     return {"text": text, "settings": [[k, rng.choice(["0.5", 100, "run_7", "300.0", "conf.lammpstrj", 0, "0", 0.0, ""])] for k in ks]}
+
+
+# Key sets with prefix / suffix / substring relations, template words, comments and file names that CONTAIN variable
+# names, values that contain variable names.  Small scope: keys over {v, vn, xv} in every dictionary order, words over
+# LREL_WORDS; realistic scope: the infretis_* variables and user templates around them.
+LREL_KEYS = ["v", "vn", "xv"]
+LREL_WORDS = ["v", "vn", "xv", "vnx", "#v", "w"]
+LREL_VALUES = ({"v": "7", "vn": "8", "xv": "9"},                 # plain
+               {"v": "q_vn", "vn": "xv.d", "xv": "1v1"})         # values containing the names of other (and their own) variables
+LREL_PAIR_LINES = ["v vn\n", "vn v\n", "xv vnx\n", "vnx #v\n", "w xv\n", "vn\n", "#v w\n", "v v\n"]
+
+LMP_STANDARD = """# variables to be replaced by infretis
+variable subcycles index infretis_subcycles
+variable timestep index infretis_timestep
+variable nsteps index infretis_nsteps
+variable initconf index infretis_initconf
+variable name index infretis_name
+variable lammpsdata index infretis_lammpsdata
+variable temperature index infretis_temperature
+variable seed index infretis_seed
+
+units real
+read_data ${lammpsdata}
+read_dump ${initconf} 0 x y z vx vy vz box yes
+fix 2 all langevin ${temperature} ${temperature} 500.0 ${seed}
+thermo ${subcycles}
+dump 1 all custom ${subcycles} ${name}.lammpstrj id type x y z vx vy vz id
+timestep ${timestep}
+run ${nsteps}
+"""
+LMP_STD_SETTINGS = [["infretis_timestep", 0.5], ["infretis_nsteps", 4000], ["infretis_subcycles", 10], ["infretis_initconf", "/w0/conf.lammpstrj"],
+                    ["infretis_name", "trial7"], ["infretis_lammpsdata", "/in/lammps.data"], ["infretis_temperature", 300.0], ["infretis_seed", 12345]]
+LMP_USER_LINES = ["# my_infretis_nsteps_note: total length is 2 x nsteps\n", "variable restartfile index infretis_name_restart.bin\n", "log log.infretis_seed_check\n",
+                  "variable out index ${name}_infretis_temperature.dat # infretis_temperature_scan\n", "shell mkdir x_infretis_name\n", "\n"]
+LREAL_KEYS = ["infretis_n", "infretis_nsteps", "infretis_nsteps_out", "infretis_name", "my_infretis_name", "infretis_name2", "infretis_temperature",
+              "infretis_temp", "infretis_seed", "infretis_initconf", "var_n", "var_nsteps", "var_nsteps_out", "n", "name"]
+LREAL_WORDS = ["infretis_name_restart.bin", "log.infretis_seed_check", "${name}.lammpstrj", "${infretis_name}", "#infretis_nsteps", "my_infretis_nsteps_note:",
+               "x_infretis_temperature_x", "var_nsteps2", "variable", "index", "run", "dump", "#", "2", "nsteps", "all", "fix", "${n}", "names"]
+LREAL_VALUES = ["/scratch/infretis_temperature_scan/w0/conf.lammpstrj", "run_infretis_name_7", "trial7", 300.0, 4000, "infretis_seed_0", "var_nsteps_outer",
+                0, "", "0.5", "n1", "my_name", "/data/var_n/infretis_n.data"]
+
+
+def lammps_fixed_cases():
+    std = [list(p) for p in LMP_STD_SETTINGS]
+    out = [{"text": LMP_STANDARD, "settings": std}, {"text": LMP_STANDARD + "".join(LMP_USER_LINES), "settings": std},
+           {"text": LMP_STANDARD + "".join(LMP_USER_LINES), "settings": std[::-1]}]
+    pre = "variable n index var_n\nvariable nsteps index var_nsteps\nvariable nstepsout index var_nsteps_out\nrun ${nsteps}\n# var_n_total var_nsteps_outer\n"
+    for order in itertools.permutations([["var_n", 3], ["var_nsteps", 500], ["var_nsteps_out", 50]]):
+        out.append({"text": pre, "settings": [list(p) for p in order]})
+    withname = [list(p) for p in LMP_STD_SETTINGS]
+    withname[3] = ["infretis_initconf", "/scratch/infretis_temperature_scan/w0/conf.lammpstrj"]
+    withname[4] = ["infretis_name", "run_infretis_seed_infretis_nsteps"]
+    out += [{"text": LMP_STANDARD, "settings": withname}, {"text": LMP_STANDARD + "".join(LMP_USER_LINES), "settings": withname[::-1]}]
+    # the same-line overlap (recorded finding) and its clean reordering
+    out += [{"text": "run var_n var_nsteps\n", "settings": [["var_n", 3], ["var_nsteps", 500]]},
+            {"text": "run var_n var_nsteps\n", "settings": [["var_nsteps", 500], ["var_n", 3]]}]
+    return out
+
+
+def lammps_small_scope(quick):
+    out = []
+    orders = [o for r in range(0, 4) for o in itertools.permutations(LREL_KEYS, r)]
+    one = ["".join(w + sep for w, sep in zip(ws, seps)).rstrip(" ") + "\n" for n in (0, 1, 2) for ws in itertools.product(LREL_WORDS, repeat=n)
+           for seps in ([" "] * n,)]
+    two = [a + b for a in LREL_PAIR_LINES for b in LREL_PAIR_LINES]
+    for order in orders:
+        for vals in (LREL_VALUES if order else LREL_VALUES[:1]):
+            st = [[k, vals[k]] for k in order]
+            for t in one + (two if not quick or len(order) >= 2 else two[::3]):
+                out.append({"text": t, "settings": st})
+    return out
+
+
+def gen_lammps_rel(rng):
+    ks = rng.sample(LREAL_KEYS, rng.randrange(1, 6))
+    vals = [v for v in LREAL_VALUES if v not in ks] if rng.random() < 0.9 else LREAL_VALUES + ks
+    settings = [[k, rng.choice(vals)] for k in ks]
+    lines = []
+    for _ in range(rng.randrange(1, 9)):
+        r = rng.random()
+        if r < 0.4:         # definition line: one variable as a word (sometimes twice), other words around it
+            k = rng.choice(ks)
+            ln = ["variable", rng.choice(["a", "nsteps", "name", k[-3:]]), "index", k] + ([k] if rng.random() < 0.15 else [])
+        elif r < 0.75:      # user line: words that contain variable names, no variable as a word
+            ln = [rng.choice([w for w in LREAL_WORDS if w not in ks] + [k + "_x" for k in ks] + ["pre_" + k for k in ks] + ["${" + k + "}" for k in ks])
+                  for _ in range(rng.randrange(1, 5))]
+        elif r < 0.9:       # comment
+            ln = ["#"] + [rng.choice(LREAL_WORDS + ks + [k + "s" for k in ks]) for _ in range(rng.randrange(0, 4))]
+        else:               # anything
+            ln = [rng.choice(LREAL_WORDS + LREAL_KEYS) for _ in range(rng.randrange(0, 5))]
+        lines.append(rng.choice(["", "  ", "\t"]) + "".join(w + rng.choice([" ", "  ", "\t"]) for w in ln).rstrip(" ") + "\n")
+    text = "".join(lines)
+    if rng.random() < 0.2:
+        text = text[:-1]
+    return {"text": text, "settings": settings}
 
 
 # --------------------------------------------------------------------------- K. extraction histories
@@ -2013,6 +2178,11 @@ def generate(rng, tier):
                             cases.append(("lammps_in", {"text": "".join(t), "settings": [[kk, v] for kk in ks]}))
     for _ in range(300 if q else 8000):
         cases.append(("lammps_in", gen_lammps_in(rng)))
+    # J2. LAMMPS: related key sets, words / comments / values containing variable names, dictionary orders
+    cases += [("lammps_in", sp) for sp in lammps_fixed_cases()]
+    cases += [("lammps_in", sp) for sp in lammps_small_scope(q)]
+    for _ in range(700 if q else 12000):
+        cases.append(("lammps_in", gen_lammps_rel(rng)))
     # K. extraction histories in one worker directory, every engine with an _extract_frame
     cases += gen_extract_histories(rng, tier)
     return cases
@@ -2082,6 +2252,11 @@ def run(ctx):
             if rep_c[c.kind] <= MAXREP and c.kind not in kinds_with_input:
                 ctx.violation(f"correspondence model/implementation broken ({c.kind}; the oracle found no failing input for this case): {cerr}",
                               {"kind": c.kind, "spec": c.spec, "correspondence": cerr}, False)
+    nknown = 0
+    for c, _ in results:
+        if getattr(c, "known", None) and not c.oracle:
+            nknown += 1
+            ctx.known(c.known)
     seen = set()
     for c, _ in results:
         if c.sample and c.kind not in seen:
@@ -2093,12 +2268,13 @@ def run(ctx):
                        "position for swap_integer, every truncation point of a TRR frame in the four (byte order x precision) variants, every mdp template of <= 2 lines over an 8-line alphabet "
                        "(with and without final newline) x every subset of 3 keys, the same templates (<= 1 line quick, <= 2 lines thorough) x every non-empty subset x every falsy value "
                        "(0, 0.0, '', None, False) and zero-like string ('0', '0.0', ' '), 2-line templates with a falsy value mixed with a non-zero one, the engine's own zero requests on a grompp-like template, every CP2K section of <= 2-3 lines over a 6-line alphabet x dicts over 3 keys (incl. None values, all key orders), "
-                       "every LAMMPS template of <= 2 lines over 5 lines x variable subsets; extraction histories for each of the five engines (CP2K, TurtleMD, LAMMPS, GROMACS, ASE) in one directory with "
+                       "every LAMMPS template of <= 2 lines over 5 lines x variable subsets; LAMMPS key sets with prefix / suffix / substring relations ({v, vn, xv} in every dictionary order, plain values and values containing variable names) x every line of <= 2 words over {v, vn, xv, vnx, #v, w} and pairs of 8 such lines, fixed realistic templates (standard template + user lines, prefix keys in all orders, path values containing variable names), 700 / 12000 random related templates; extraction histories for each of the five engines (CP2K, TurtleMD, LAMMPS, GROMACS, ASE) in one directory with "
                        "sources trajA (3 frames) and trajB (2 frames), outputs conf / genesis, the output conf initially absent / one stale frame / one frame of an unrelated system / junk / empty / a stale 2-frame trajectory: "
                        "every single extraction, every pair of extractions (sources: both trajectories and every earlier output incl. the output itself, every frame index, both outputs; quick tier: all pairs ending in the "
                        "pre-existing or just-written output for the extended-xyz engines, a seeded sample of them for the others and of the remaining pairs; thorough: all pairs), and random histories of 3-7 operations "
                        "with 1-5 atoms, 1-4 / 1-3 source frames; seeded random beyond (values up to 1e15, random mdp/CP2K/LAMMPS grammars).")
-    ctx.cov["correspondence"] = {"cases": len(results), "model_requests": nreq, "disagreeing_cases": ncorr, "oracle_failures": sum(rep_o.values()), "oracle_failures_by_kind": rep_o}
+    ctx.cov["correspondence"] = {"cases": len(results), "model_requests": nreq, "disagreeing_cases": ncorr, "oracle_failures": sum(rep_o.values()), "oracle_failures_by_kind": rep_o,
+                                 "lammps_same_line_overlap_cases_showing_the_recorded_finding": nknown}
     ctx.cov["trusted_base"] += ["extraction: ExtrOcamlBasic only; ocaml/util.ml + ocaml/c19_driver.ml",
                                 "py/checks/c19.py: generators, file skeletons (section keywords of .g96, count/header lines of .xyz), struct-packed TRR files, IEEE decoding of the model's byte groups, "
                                 "independent CP2K tree parser + canonical sibling order, tokenisation of LAMMPS lines into white-space / token pieces, engine objects made with object.__new__ for the extraction histories, "
@@ -2108,7 +2284,7 @@ def run(ctx):
     ctx.assumptions += ["ASCII text; no '\\r'; plain decimal literals (no exponent/inf/nan in fixed-width fields)",
                         "g96 label prefix is exactly 24 characters (format contract)", "lammpstrj: >= 2 atoms, box present, ids distinct",
                         "CP2K: at most two sections share a title path and then differ in their settings; targets upper case and not extending a settings-qualified key; replace=True with list data",
-                        "LAMMPS: no requested variable is a substring of another token or of a value; no value is itself a requested variable",
+                        "LAMMPS: values are free of white space; the whole-word statement is demanded on lmp_line_clean templates (the others show the recorded same-line finding); idempotence is demanded when no value is itself a requested variable",
                         "TRR: natoms >= 0 and sizes below 2^31; reals are compared as bit patterns",
                         "extraction histories: every operation names an existing source and a frame it holds; GROMACS: the source of an extraction is never its own output (.g96 -> .g96 is a copy); "
                         "AMS engine not exercised (needs an AMS worker)"]
